@@ -80,6 +80,19 @@ def _dict_entries(f, e, d=0):
             val = _scalar(e.value)
             if isinstance(e.key, ast.Name) and e.key.id == kn and isinstance(val, ast.Name) and val.id == vn:
                 return _dict_entries(f, it.func.value, d + 1)
+        # {column: [value] for column, value in <list of (name, value) pairs>}
+        pairs = it
+        if isinstance(pairs, ast.Name):
+            defs = assigned_names(f).get(pairs.id, [])
+            pairs = defs[0].value if len(defs) == 1 and isinstance(defs[0], ast.Assign) else None
+        if isinstance(pairs, (ast.List, ast.Tuple)) and isinstance(g.target, ast.Tuple) and len(g.target.elts) == 2 \
+                and all(isinstance(x, ast.Name) for x in g.target.elts) and all(
+                    isinstance(x, ast.Tuple) and len(x.elts) == 2 and isinstance(x.elts[0], ast.Constant)
+                    and isinstance(x.elts[0].value, str) for x in pairs.elts):
+            kn, vn = g.target.elts[0].id, g.target.elts[1].id
+            val = _scalar(e.value)
+            if isinstance(e.key, ast.Name) and e.key.id == kn and isinstance(val, ast.Name) and val.id == vn:
+                return {x.elts[0].value: x.elts[1] for x in pairs.elts}
     if isinstance(e, (ast.List, ast.Tuple)) and len(e.elts) == 1:
         return _dict_entries(f, e.elts[0], d + 1)       # DataFrame([row])
     return None
